@@ -415,6 +415,11 @@ def main(run):
                 "plus float-valued populations (discrete part, association and oracle only); "
                 "niching replayed with the recorded shuffles; association checked in binary64 "
                 "within tolerance and exactly over Q on a robust subset. Reference points: every (M,p) in 2..6 x 1..8, scalings. "
+                "Deepening: find_intercepts on every integer-valued call inside selNSGA3 and on crafted direct calls (M 1..5; random / dense / diagonal matrices, "
+                "guards holding with equality, duplicate extreme points, extreme point = best point, objective constant over the extreme points, 2x / 3x / summed rows, "
+                "zero component of the solution, negative / dyadic tiny / too large intercepts, offsets up to 1e6) against the exact model of every branch; "
+                "the whole selNSGA3 pipeline recomputed from weighted values, k, nd, reference points, memory and shuffles (CFull), 30% of the integer populations "
+                "with one individual far out on every axis so that the main branch of find_intercepts is reached. "
                 "Hardening: sequences on the same objects (same population selected from repeatedly / reordered; selNSGA3WithMemory and the "
                 "hand-threaded best_point/worst_point/extreme_points/return_memory route; two interleaved clients sharing one reference array; "
                 "overwritten reference-point results), inputs snapshotted and compared after every call, value domains (int / numpy scalar "
@@ -425,8 +430,14 @@ def main(run):
     run.trusted += ["Coq 8.16.1 kernel and vm_compute",
                     "hand-written models coq/Model/C07_{Spea2,Nsga3,RefPoints}.v tied by correspondence (harness/c07.py)",
                     "recording proxies for random / numpy.random / helper functions placed in the namespace of deap.tools.emo",
-                    "find_extreme_points / find_intercepts (ASF, numpy.linalg.solve) are inputs recorded from the implementation, not modelled",
-                    "sortNondominated / sortLogNondominated are inputs (property C04); the fronts they return are checked by an independent peeling oracle",
+                    "integer-valued NSGA-III populations (CFull): the whole of selNSGA3 runs inside the model nsga3_full (C04's models of the two sorters, "
+                    "best/worst/extreme points, find_intercepts, association, niching); only the shuffles are recorded. LAPACK's rounding in numpy.linalg.solve is "
+                    "not modelled: where the exact branch decision of find_intercepts has no margin (a guard holding with equality, an inexact elimination of a "
+                    "singular matrix - decided by the harness from exact quantities) the observed intercepts only have to be one of the values a branch can return",
+                    "float-valued NSGA-III populations, and integer ones failing the robustness conditions of CFull, still use the first-round route: fronts and "
+                    "intercepts recorded from the implementation (fronts checked by an independent peeling oracle, intercepts by the guard oracle); "
+                    "find_extreme_points is modelled for integer-valued fitnesses only",
+                    "hand-written models coq/Model/C07_{Intercepts,Full}.v and C04's coq/Model/C04_{NDSort,LogSort}.v (inside nsga3_full) tied by correspondence",
                     "exact replay of selSPEA2 uses integer grids (|coordinate| <= 64, n <= 64): float keys raw + 1/(d+2) then order exactly like the rationals; "
                     "the binary64 replay (Coq primitive floats) has no such restriction",
                     "K = math.sqrt(N) is modelled by isqrt(N) (valid for N < 2^50)"]
